@@ -133,4 +133,58 @@ theorem IterAt.nexts {d : Deque α} {l : List α} (h : Rep d l) :
         have e2 : min (l.length + (n + 1)) l.length = l.length := by omega
         rw [e1] at h2; rw [e2]; exact h2
 
+/-! ## an iterator observed while the deque is only read (audit C15-F6) -/
+
+/-- the calls that only read: `Front`, `Back`, `Item`, `Len`, draining another iterator -/
+def readsOnly : Op α → Bool
+  | .front | .back | .item _ | .len | .iterate => true
+  | _ => false
+
+/-- a call that leaves the deque as it is: a read, or a call that panics (empty `Pop*`, `Set` outside the range,
+`Shrink` of a negative amount) -/
+def Quiet (l : List α) (o : Op α) : Prop := readsOnly o = true ∨ Spec.Deque.panics l o = true
+
+/-- a read returns the state it was given, whatever that state is -/
+theorem applyOp_readsOnly (d : Deque α) (o : Op α) (h : readsOnly o = true) : (applyOp d o).1 = d := by
+  cases o <;> simp only [readsOnly, Bool.false_eq_true] at h
+  · simp only [applyOp, Model.Deque.frontOf]; split
+    · rfl
+    · split <;> rfl
+  · simp only [applyOp, Model.Deque.backOf]; split <;> rfl
+  · simp only [applyOp, Model.Deque.item]; split
+    · rfl
+    · split
+      · rfl
+      · split <;> rfl
+  · rfl
+  · rfl
+
+theorem Rep.applyOp_quiet {d : Deque α} {l : List α} (h : Rep d l) (hc : ClearFacts) {o : Op α}
+    (hq : Quiet l o) : (Model.Deque.applyOp d o).1 = d := by
+  rcases hq with hq | hq
+  · exact applyOp_readsOnly d o hq
+  · exact (Rep.applyOp h o hc).2.2.2 hq
+
+/-- number of `Next` events -/
+def nextCount : List (Ev α) → Nat
+  | [] => 0
+  | .next :: es => nextCount es + 1
+  | .op _ :: es => nextCount es
+
+/-- while every interleaved call leaves the state as it is, the iterator sees what back-to-back `Next`s see -/
+theorem runEv_untouched (d : Deque α) : ∀ (es : List (Ev α)) (it : Iter),
+    (∀ o, Ev.op o ∈ es → (applyOp d o).1 = d) → runEv d it es = (nexts d it (nextCount es)).2 := by
+  intro es
+  induction es with
+  | nil => intro it _; rfl
+  | cons e es ih =>
+    intro it hq
+    cases e with
+    | op o =>
+      simp only [Model.Deque.runEv, nextCount, hq o (by simp)]
+      exact ih it (fun o' ho' => hq o' (by simp [ho']))
+    | next =>
+      simp only [Model.Deque.runEv, nextCount, Model.Deque.nexts]
+      rw [ih _ (fun o' ho' => hq o' (by simp [ho']))]
+
 end Juniper.Proofs.Deque
